@@ -185,9 +185,13 @@ func runComparators(c *Ctx, fns []*ssa.Function, wantKey map[string]string) {
 					if ret, ok := less.Blocks[0].Instrs[len(less.Blocks[0].Instrs)-1].(*ssa.Return); ok {
 						switch rv := ret.Results[0].(type) {
 						case *ssa.BinOp:
-							a := strings.ReplaceAll(canon(rv.X), "["+less.Params[0].Name()+"]", "[#]")
-							bb := strings.ReplaceAll(canon(rv.Y), "["+less.Params[1].Name()+"]", "[#]")
-							if rv.Op != token.LSS || a != bb || !strings.Contains(a, "[#]") {
+							lhs, rhs, op := rv.X, rv.Y, rv.Op
+							if op == token.GTR {
+								lhs, rhs, op = rhs, lhs, token.LSS // key(x[j]) > key(x[i]) is key(x[i]) < key(x[j])
+							}
+							a := strings.ReplaceAll(canon(lhs), "["+less.Params[0].Name()+"]", "[#]")
+							bb := strings.ReplaceAll(canon(rhs), "["+less.Params[1].Name()+"]", "[#]")
+							if op != token.LSS || a != bb || !strings.Contains(a, "[#]") {
 								probs = append(probs, "comparator is not `key(x[i]) < key(x[j])` on one key")
 							}
 							if i := strings.LastIndex(a, "."); i >= 0 {
@@ -610,6 +614,11 @@ func runRejectInert(c *Ctx) {
 								if !p.fnIndex[cal] {
 									continue
 								}
+								// a helper that writes only through its pointer parameters, handed the address of a variable of
+								// this iteration: nothing outlives the iteration
+								if writesOnlyThroughParams(p, cal, 0) && argsAreIterationLocal(x, localAlloc) {
+									continue
+								}
 								for k := range e.mods[cal] {
 									if k != "local" && !strings.HasPrefix(k, "csv.") {
 										problems = append(problems, fmt.Sprintf("%s: call of %s (writes %s) on a path that rejects the row", p.ipos(x), shortName(cal), k))
@@ -985,4 +994,65 @@ func getterLikeField(f *ssa.Function) (string, bool) {
 		return "", false
 	}
 	return fieldName(fa.X.Type(), fa.Field), true
+}
+
+// writesOnlyThroughParams: every store of fn (and of the module functions it calls with its own parameters) goes
+// through one of its pointer parameters or into its own locals; no map update, no other effectful call.
+func writesOnlyThroughParams(p *Program, fn *ssa.Function, d int) bool {
+	if d > 2 || len(fn.Blocks) == 0 {
+		return false
+	}
+	for _, b := range fn.Blocks {
+		for _, in := range b.Instrs {
+			switch x := in.(type) {
+			case *ssa.Store:
+				switch addrRoot(x.Addr).(type) {
+				case *ssa.Parameter, *ssa.Alloc:
+				default:
+					return false
+				}
+			case *ssa.MapUpdate:
+				return false
+			case ssa.CallInstruction:
+				if _, isB := x.Common().Value.(*ssa.Builtin); isB {
+					continue
+				}
+				for _, cal := range p.Callees(x) {
+					if p.fnIndex[cal] {
+						if !writesOnlyThroughParams(p, cal, d+1) {
+							return false
+						}
+						for _, a := range x.Common().Args {
+							if _, isPtr := a.Type().Underlying().(*types.Pointer); isPtr {
+								switch addrRoot(a).(type) {
+								case *ssa.Parameter, *ssa.Alloc:
+								default:
+									return false
+								}
+							}
+						}
+					} else if len(externalWrites(cal.String(), x)) > 0 {
+						return false
+					}
+				}
+			}
+		}
+	}
+	return true
+}
+
+// argsAreIterationLocal: every pointer argument of the call is the address of (or inside) a local variable.
+func argsAreIterationLocal(call *ssa.Call, localAlloc map[ssa.Value]bool) bool {
+	for _, a := range call.Call.Args {
+		switch a.Type().Underlying().(type) {
+		case *types.Pointer:
+			root := addrRoot(a)
+			if _, isAlloc := root.(*ssa.Alloc); !isAlloc || !localAlloc[root] {
+				return false
+			}
+		case *types.Map, *types.Slice, *types.Chan, *types.Interface, *types.Signature:
+			return false
+		}
+	}
+	return true
 }
